@@ -149,12 +149,44 @@ bytearray is too short. -/
 def MapSet.pixel (s : MapSet) (k : Int) (x z : Nat) : Option UInt8 :=
   (dictGet k s).bind fun m => m.pixels[x + 128 * z]?
 
+/-- The fields of map `k` after a history that led from `s` to `s'`: untouched (or still absent) if
+no packet is addressed to `k`; otherwise present, under its own id, with the scale, icons and flags
+of the LAST packet addressed to it. -/
+def FieldsSpec (hist : List MapPacket) (s s' : MapSet) (k : Int) : Prop :=
+  match lastPacket hist k with
+  | none => dictGet k s' = dictGet k s
+  | some q => ∃ m, dictGet k s' = some m ∧ m.id = some k ∧ m.scale = some q.scale ∧
+      m.icons = q.icons ∧ m.isTrackingPosition = q.isTrackingPosition ∧ m.isLocked = q.isLocked
+
+/-- Totality, invariant and the pixel clause, as a predicate on an arbitrary replay function (so that
+it can be stated of the model and of models of changed code alike). -/
+def PixelLaw (replay : List MapPacket → MapSet → Except Err MapSet) : Prop :=
+  ∀ hist s, MapSet.WF s → (∀ p ∈ hist, p.InRange) →
+    ∃ s', replay hist s = .ok s' ∧ MapSet.WF s' ∧
+      ∀ k ∈ s'.map Prod.fst, ∀ x z, x < 128 → z < 128 →
+        s'.pixel k x z = some ((lastWrite hist k x z).getD ((s.pixel k x z).getD 0))
+
+/-- After an exception the packet's map is in the set with id, scale and icons from the packet; as a
+predicate on an arbitrary effectful `apply_to_map_set`. -/
+def ErrorLaw (applyFx : MapPacket → MapSet → MapSet × Option Err) : Prop :=
+  ∀ p s s' e, applyFx p s = (s', some e) →
+    ∃ m', dictGet p.mapId s' = some m' ∧ m'.id = some p.mapId ∧ m'.scale = some p.scale ∧
+      m'.icons = p.icons
+
 /-! ### Observations (what the generator and the driver print) -/
 
-/-- `[(i, b) for i, b in enumerate(pixels) if b]`. -/
-def nonzeroCells : Nat → Bytes → List (Nat × Nat)
+/-- The non-zero pixels as maximal runs `(start index, count, value)` of equal consecutive values
+(so that a uniformly filled bytearray has a one-entry description). -/
+def nonzeroRuns : Nat → Bytes → List (Nat × Nat × Nat)
   | _, [] => []
-  | i, b :: bs => if b = 0 then nonzeroCells (i + 1) bs else (i, b.toNat) :: nonzeroCells (i + 1) bs
+  | i, b :: bs =>
+    if b = 0 then nonzeroRuns (i + 1) bs
+    else
+      match nonzeroRuns (i + 1) bs with
+      | (j, n, v) :: rest =>
+        if j = i + 1 ∧ v = b.toNat then (i, n + 1, v) :: rest
+        else (i, 1, b.toNat) :: (j, n, v) :: rest
+      | [] => [(i, 1, b.toNat)]
 
 /-- One `maps_by_id` item as observed from outside. -/
 structure MapObs where
@@ -165,18 +197,29 @@ structure MapObs where
   width : Nat
   height : Nat
   len : Nat
-  nonzero : List (Nat × Nat)
+  nonzero : List (Nat × Nat × Nat)
   tracking : Bool
   locked : Bool
 deriving DecidableEq, Repr
 
 def MapState.obs (k : Int) (m : MapState) : MapObs :=
   { key := k, id := m.id, scale := m.scale, icons := m.icons, width := m.width, height := m.height,
-    len := m.pixels.length, nonzero := nonzeroCells 0 m.pixels,
+    len := m.pixels.length, nonzero := nonzeroRuns 0 m.pixels,
     tracking := m.isTrackingPosition, locked := m.isLocked }
 
 /-- `maps_by_id.items()` as observed. -/
 def MapSet.obs (s : MapSet) : List MapObs := s.map fun km => km.2.obs km.1
+
+/-- `MapPacket.Map(id, width=w, height=h)` (`map_packet.py:51-60`); `MapState.new (some id)` is the
+case `w = h = 128` (the defaults). -/
+def MapState.ofSize (id : Int) (w h : Nat) : MapState :=
+  { id := some id, scale := none, icons := [], pixels := List.replicate (w * h) 0,
+    width := w, height := h, isTrackingPosition := true, isLocked := false }
+
+/-- `MapSet(*[Map(id, width=w, height=h) for (id, w, h) in ms])`, `map_packet.py:65-66`:
+`{map.id: map for map in maps}`. -/
+def MapSet.ofSizes (ms : List (Int × Nat × Nat)) : MapSet :=
+  ms.foldl (fun s r => dictSet r.1 (MapState.ofSize r.1 r.2.1 r.2.2) s) []
 
 /-! Conversions from the plain tuples of `Generated/C20Maps.lean`. -/
 
@@ -193,7 +236,7 @@ def packetOfRaw
 
 def obsOfRaw
     (r : Int × Option Int × Option Int × List (Int × Int × Int × Int × Option String) × Nat × Nat ×
-      Nat × List (Nat × Nat) × Bool × Bool) : MapObs :=
+      Nat × List (Nat × Nat × Nat) × Bool × Bool) : MapObs :=
   { key := r.1, id := r.2.1, scale := r.2.2.1, icons := r.2.2.2.1.map iconOfRaw,
     width := r.2.2.2.2.1, height := r.2.2.2.2.2.1, len := r.2.2.2.2.2.2.1,
     nonzero := r.2.2.2.2.2.2.2.1, tracking := r.2.2.2.2.2.2.2.2.1, locked := r.2.2.2.2.2.2.2.2.2 }
@@ -204,6 +247,21 @@ def errOfName : Option String → Option (Option Err)
   | some "IndexError" => some (some .other)
   | some "ZeroDivisionError" => some (some .other)
   | some _ => none
+
+/-- One generated scenario `(title, initial maps, history, exception name, observed maps)`: the
+effectful model, run on the history from `MapSet(Map(id, width=w, height=h), …)`, ends with the same
+(absence of) exception and the same observable map set as the live code did. -/
+def scenarioOK
+    (sc : String × List (Int × Nat × Nat) ×
+      List (Int × Int × List (Int × Int × Int × Int × Option String) × Nat × Nat × Int × Int ×
+        Option (List Nat) × Bool × Bool) ×
+      Option String ×
+      List (Int × Option Int × Option Int × List (Int × Int × Int × Int × Option String) × Nat ×
+        Nat × Nat × List (Nat × Nat × Nat) × Bool × Bool)) : Bool :=
+  decide (errOfName sc.2.2.2.1 =
+    some (replayMapsFx (sc.2.2.1.map packetOfRaw) (MapSet.ofSizes sc.2.1)).2) &&
+  decide ((replayMapsFx (sc.2.2.1.map packetOfRaw) (MapSet.ofSizes sc.2.1)).1.obs =
+    sc.2.2.2.2.map obsOfRaw)
 
 /-! ### Models of CHANGED code (used only to show that the property theorems notice the change) -/
 
